@@ -174,4 +174,627 @@ theorem diag_rowsums_not_flat :
 example : (List.range 3).map (marginalizeAt (zeroDiags 1 witnessD17))
     = (List.range 3).map (rowsumAt 3 (zeroDiags 1 witnessD17)) := by decide
 
+/-! ## the bin-level masks of the code are the documented ones when the diagonal is ignored -/
+
+theorem zeroDiags_diag {α : Type} [Zero α] (d : Nat) (hd : 1 ≤ d) (l : List (WPx α)) :
+    ∀ p ∈ zeroDiags d l, p.i = p.j → p.w = 0 := by
+  intro p hp hij
+  unfold zeroDiags at hp
+  obtain ⟨q, _, rfl⟩ := List.mem_map.mp hp
+  by_cases h : absDiff q.i q.j < d
+  · simp [h]
+  · simp only [h, if_false] at hij ⊢
+    exfalso; apply h; unfold absDiff; split <;> omega
+
+theorem zeroDiags_ids {α : Type} [Zero α] (d n : Nat) (l : List (WPx α)) (hl : ∀ p ∈ l, p.i < n ∧ p.j < n) :
+    ∀ p ∈ zeroDiags d l, p.i < n ∧ p.j < n := by
+  intro p hp
+  unfold zeroDiags at hp
+  obtain ⟨q, hq, rfl⟩ := List.mem_map.mp hp
+  have := hl q hq
+  split <;> exact this
+
+theorem zeroTrans_ids {α : Type} [Zero α] (offs : List Nat) (n : Nat) (l : List (WPx α))
+    (hl : ∀ p ∈ l, p.i < n ∧ p.j < n) : ∀ p ∈ zeroTrans offs l, p.i < n ∧ p.j < n := by
+  intro p hp
+  unfold zeroTrans at hp
+  obtain ⟨q, hq, rfl⟩ := List.mem_map.mp hp
+  have := hl q hq
+  split <;> exact this
+
+theorem binarize_ids (n : Nat) (l : List (WPx Rat)) (hl : ∀ p ∈ l, p.i < n ∧ p.j < n) :
+    ∀ p ∈ binarize l, p.i < n ∧ p.j < n := by
+  intro p hp
+  unfold binarize at hp
+  obtain ⟨q, hq, rfl⟩ := List.mem_map.mp hp
+  have := hl q hq
+  split <;> exact this
+
+/-- with `ignore_diags ≥ 1` the base-filtered data has an empty main diagonal and valid bin ids -/
+theorem baseFilter_props (o : Opts) (hd : 1 ≤ o.ignoreDiags) (offs : List Nat) (n : Nat)
+    (l : List (WPx Rat)) (hl : ∀ p ∈ l, p.i < n ∧ p.j < n) :
+    (∀ p ∈ baseFilter o offs l, p.i < n ∧ p.j < n) ∧ (∀ p ∈ baseFilter o offs l, p.i = p.j → p.w = 0) := by
+  unfold baseFilter
+  have hne : o.ignoreDiags ≠ 0 := by omega
+  simp only [hne, ne_eq, not_false_eq_true, if_true]
+  by_cases hm : o.mode = .cis
+  · simp only [hm, if_true]
+    exact ⟨zeroDiags_ids _ n _ (zeroTrans_ids offs n l hl), zeroDiags_diag _ hd _⟩
+  · simp only [hm, if_false]
+    exact ⟨zeroDiags_ids _ n _ hl, zeroDiags_diag _ hd _⟩
+
+/-- **The code's bin-level masks are the documented ones** (`ignore_diags ≥ 1`): computing
+`min_nnz`, `min_count` and MAD-max from `_marginalize` (L1) or from the row sums of the filtered
+symmetric matrix (L0) gives the same masks, for every pixel table with bin ids below `n`. -/
+theorem masks_code_eq_spec (n : Nat) (offs : List Nat) (l : List (WPx Rat)) (o : Opts)
+    (hd : 1 ≤ o.ignoreDiags) (hl : ∀ p ∈ l, p.i < n ∧ p.j < n) :
+    computeMasks marginalizeAt n offs l o = computeMasks (rowsumAt n) n offs l o := by
+  have h1 : (fun k => marginalizeAt (baseFilter o offs l) k) = fun k => rowsumAt n (baseFilter o offs l) k := by
+    funext k
+    have := baseFilter_props o hd offs n l hl
+    exact marginalize_eq_rowsum n _ this.1 this.2 k
+  have h2 : (fun k => marginalizeAt (baseFilter o offs (binarize l)) k)
+      = fun k => rowsumAt n (baseFilter o offs (binarize l)) k := by
+    funext k
+    have := baseFilter_props o hd offs n (binarize l) (binarize_ids n l hl)
+    exact marginalize_eq_rowsum n _ this.1 this.2 k
+  have h1' : marginalizeAt (baseFilter o offs l) = rowsumAt n (baseFilter o offs l) := h1
+  have h2' : ∀ k, marginalizeAt (baseFilter o offs (binarize l)) k = rowsumAt n (baseFilter o offs (binarize l)) k :=
+    fun k => congrFun h2 k
+  unfold computeMasks
+  simp only [h1', h2']
+
+/-! ## the interval the driver hands to the harness is the theorem's -/
+
+theorem sqrtUp_nonneg (q : Rat) : 0 ≤ sqrtUp q := by
+  unfold sqrtUp
+  apply div_nonneg
+  · exact_mod_cast Nat.zero_le _
+  · positivity
+
+/-- whenever `provedInterval tol N scale` answers `(δ, lo, hi)`, the numbers satisfy the hypotheses of
+`converged_rowsums_bound` (`0 ≤ δ < 1`, `tol·N ≤ δ²·scale²`, `scale > 0`) and `lo = 1/(1+δ)`,
+`hi = 1/(1−δ)` -/
+theorem provedInterval_sound (tol : Rat) (N : Nat) (scale δ lo hi : Rat)
+    (h : provedInterval tol N scale = some (δ, lo, hi)) :
+    0 ≤ δ ∧ δ < 1 ∧ 0 < scale ∧ tol * (N : Rat) ≤ δ ^ 2 * scale ^ 2 ∧ lo = 1 / (1 + δ) ∧ hi = 1 / (1 - δ) := by
+  unfold provedInterval at h
+  split at h
+  · exact absurd h (by simp)
+  · rename_i hs
+    simp only at h
+    split at h
+    · rename_i hc
+      simp only [Option.some.injEq, Prod.mk.injEq] at h
+      obtain ⟨rfl, rfl, rfl⟩ := h
+      refine ⟨sqrtUp_nonneg _, hc.2, ?_, ?_, rfl, rfl⟩
+      · exact not_le.mp (not_or.mp hs).1
+      · have := hc.1; rw [pow_two, pow_two]; exact this
+    · exact absurd h (by simp)
+
+/-- non-vacuity: with `tol = 0` the interval is `1 ± 10⁻²⁰` -/
+example : provedInterval 0 10 4 = some (1 / 10 ^ 20, 1 / (1 + 1 / 10 ^ 20), 1 / (1 - 1 / 10 ^ 20)) := by
+  have h0 : Rat.floor 0 = 0 := rfl
+  norm_num [provedInterval, sqrtUp, h0]
+
+/-! ## finding D18, machine-checked on the executable model
+
+Chromosomes of 1, 2 and 2 bins; `x0 = 1 / cweights`.  The code's (chromosome-weighted) marginal is
+`4, 4, 4, 4, 4`: variance 0, so the first sweep reports convergence and leaves the weights unchanged
+(`scale = 4`).  The row sums of the inter-chromosomal matrix under these weights are `48/25` for the
+first chromosome and `39/25` for the others (after the rescaling by `1/√4`: 0.48 and 0.39) — neither
+equal to one another nor to 1. -/
+
+def pxD18 : Pixels := [⟨0, 1, 1⟩, ⟨0, 2, 1⟩, ⟨0, 3, 1⟩, ⟨0, 4, 1⟩, ⟨1, 3, 2⟩, ⟨1, 4, 1⟩, ⟨2, 3, 1⟩, ⟨2, 4, 2⟩]
+def offsD18 : List Nat := [0, 1, 3, 5]
+def bD18 : List Rat := [4/5, 3/5, 3/5, 3/5, 3/5]
+/-- `_zero_cis` after `_zero_diags 1` (`sweepFilter` in trans-only mode with `ignore_diags = 1`) -/
+def lfD18 : List (WPx Rat) := zeroCis offsD18 (zeroDiags 1 (pixelsOf pxD18))
+
+/-- a sweep whose variance is below `tol` is the last one -/
+theorem icLoop_stops_first (margOf : List Rat → List Rat) (lo hi : Nat) (tol : Rat) (k : Nat) (b : List Rat)
+    (it : Nat) (gs : List Rat) (m : List Rat) (hm : slice (margOf b) lo hi = m)
+    (hnz : (m.filter (fun x => decide (x ≠ 0))).isEmpty = false)
+    (hv : IC.variance (m.filter (fun x => decide (x ≠ 0))) < tol) :
+    icLoop margOf lo hi tol (k + 1) b it gs =
+      ⟨applyUpdate b lo m (IC.mean (m.filter (fun x => decide (x ≠ 0)))), false,
+        some (IC.mean (m.filter (fun x => decide (x ≠ 0)))), IC.variance (m.filter (fun x => decide (x ≠ 0))),
+        it + 1, relGap (IC.variance (m.filter (fun x => decide (x ≠ 0)))) tol :: gs⟩ := by
+  rw [icLoop]
+  simp only [hm, hnz, Bool.false_eq_true, if_false, hv, true_or, if_true]
+
+theorem d18_marg : margVec 5 lfD18 (mulVec bD18 (cweights 5 offsD18)) = [4, 4, 4, 4, 4] := by
+  norm_num [margVec, lfD18, zeroCis, zeroDiags, absDiff, pixelsOf, pxD18, offsD18, mulVec, bD18, chromOf,
+    marginalizeAt, bincountAt, timesOuter, cweights, List.range, List.range.loop]
+
+/-- **Finding D18, machine-checked**: the trans-only sweep started at `bD18` stops at once, reporting
+convergence (`var = 0 < tol`) with unchanged weights and `scale = 4`; yet the row sums of the
+inter-chromosomal matrix under these weights differ between chromosomes. -/
+theorem trans_rowsums_not_flat :
+    let out := icLoop (fun b => margVec 5 lfD18 (mulVec b (cweights 5 offsD18))) 0 5 (1 / 1000) 6 bD18 0 []
+    out.bias = bD18 ∧ out.emptied = false ∧ out.scale = some 4 ∧ out.var = 0 ∧ out.iters = 1 ∧
+    (List.range 5).map (rowsumAt 5 (timesOuter (fun i => bD18.getD i 0) lfD18))
+      = [48/25, 39/25, 39/25, 39/25, 39/25] := by
+  intro out
+  have hm : slice ((fun b => margVec 5 lfD18 (mulVec b (cweights 5 offsD18))) bD18) 0 5 = [4, 4, 4, 4, 4] := by
+    show slice (margVec 5 lfD18 (mulVec bD18 (cweights 5 offsD18))) 0 5 = _
+    rw [d18_marg]; rfl
+  have hf : ([4, 4, 4, 4, 4] : List Rat).filter (fun x => decide (x ≠ 0)) = [4, 4, 4, 4, 4] := by
+    norm_num [List.filter]
+  have hmean : IC.mean ([4, 4, 4, 4, 4] : List Rat) = 4 := by norm_num [IC.mean]
+  have hvar : IC.variance ([4, 4, 4, 4, 4] : List Rat) = 0 := by norm_num [IC.variance, IC.mean]
+  have hout : out = _ := icLoop_stops_first _ 0 5 (1 / 1000) 5 bD18 0 [] [4, 4, 4, 4, 4] hm
+    (by rw [hf]; rfl) (by rw [hf, hvar]; norm_num)
+  rw [hf, hmean, hvar] at hout
+  refine ⟨?_, ?_, ?_, ?_, ?_, ?_⟩
+  · rw [hout]; norm_num [applyUpdate, divisor, bD18, List.mapIdx, List.mapIdx.go]
+  · rw [hout]
+  · rw [hout]
+  · rw [hout]
+  · rw [hout]
+  · norm_num [lfD18, zeroCis, zeroDiags, absDiff, pixelsOf, pxD18, offsD18, bD18, chromOf, rowsumAt, symmAt,
+      timesOuter, List.range, List.range.loop]
+
+/-! ## mask invariants of the sweeps
+
+What is proved: one update keeps weights non-negative, keeps a masked bin (weight 0) at 0 and an
+unmasked bin positive; these lift over any number of sweeps (`icLoop_invariant`), so after the NaN
+marking a bin carries NaN iff it was masked before the sweeps or the domain was emptied, and every
+other weight is `> 0`. -/
+
+theorem divisor_pos (mi μ : Rat) (hmi : 0 ≤ mi) (hμ : 0 < μ) : 0 < divisor mi μ := by
+  unfold divisor
+  split
+  · norm_num
+  · rename_i h
+    exact div_pos (lt_of_le_of_ne hmi (Ne.symm h)) hμ
+
+theorem getD_nonneg_of_forall (m : List Rat) (hm : ∀ x ∈ m, 0 ≤ x) (i : Nat) : 0 ≤ m.getD i 0 := by
+  rw [List.getD_eq_getElem?_getD]
+  cases h : m[i]? with
+  | none => simp
+  | some x => exact hm x (List.mem_of_getElem? h)
+
+/-- every entry of the updated vector is the old entry divided by a positive number -/
+theorem applyUpdate_entry (b : List Rat) (lo : Nat) (m : List Rat) (μ : Rat) (hm : ∀ x ∈ m, 0 ≤ x)
+    (hμ : 0 < μ) (i : Nat) : ∃ d : Rat, 0 < d ∧ (applyUpdate b lo m μ).getD i 0 = b.getD i 0 / d := by
+  unfold applyUpdate
+  rw [List.getD_eq_getElem?_getD, List.getD_eq_getElem?_getD, List.getElem?_mapIdx]
+  cases b[i]? with
+  | none => exact ⟨1, by norm_num, by simp⟩
+  | some x =>
+    by_cases h : lo ≤ i ∧ i < lo + m.length
+    · exact ⟨divisor (m.getD (i - lo) 0) μ, divisor_pos _ _ (getD_nonneg_of_forall m hm _) hμ, by simp [h]⟩
+    · exact ⟨1, by norm_num, by simp [h]⟩
+
+/-- one update keeps non-negative weights non-negative -/
+theorem applyUpdate_nonneg (b : List Rat) (lo : Nat) (m : List Rat) (μ : Rat) (hm : ∀ x ∈ m, 0 ≤ x)
+    (hμ : 0 < μ) (hb : ∀ i, 0 ≤ b.getD i 0) (i : Nat) : 0 ≤ (applyUpdate b lo m μ).getD i 0 := by
+  obtain ⟨d, hd, he⟩ := applyUpdate_entry b lo m μ hm hμ i
+  rw [he]; exact div_nonneg (hb i) (le_of_lt hd)
+
+/-- one update keeps a masked bin masked (weight 0) and an unmasked bin unmasked -/
+theorem applyUpdate_zero_iff (b : List Rat) (lo : Nat) (m : List Rat) (μ : Rat) (hm : ∀ x ∈ m, 0 ≤ x)
+    (hμ : 0 < μ) (i : Nat) : (applyUpdate b lo m μ).getD i 0 = 0 ↔ b.getD i 0 = 0 := by
+  obtain ⟨d, hd, he⟩ := applyUpdate_entry b lo m μ hm hμ i
+  rw [he, div_eq_zero_iff]
+  constructor
+  · rintro (h | h)
+    · exact h
+    · exact absurd h (ne_of_gt hd)
+  · intro h; exact Or.inl h
+
+theorem mean_pos (l : List Rat) (hne : l ≠ []) (hl : ∀ x ∈ l, 0 < x) : 0 < IC.mean l := by
+  unfold IC.mean
+  apply div_pos (List.sum_pos l hl hne)
+  have : 0 < l.length := List.length_pos_iff.mpr hne
+  exact_mod_cast this
+
+theorem mem_slice {β : Type} (v : List β) (lo hi : Nat) (x : β) (hx : x ∈ slice v lo hi) : x ∈ v := by
+  unfold slice at hx
+  exact List.mem_of_mem_drop (List.mem_of_mem_take hx)
+
+/-- the sweeps' invariant, for any number of sweeps and any marginal functional that maps
+non-negative weights to non-negative marginals -/
+theorem icLoop_invariant (margOf : List Rat → List Rat) (lo hi : Nat) (tol : Rat)
+    (hmarg : ∀ b : List Rat, (∀ i, 0 ≤ b.getD i 0) → ∀ x ∈ margOf b, 0 ≤ x) :
+    ∀ (k : Nat) (b : List Rat) (it : Nat) (gs : List Rat), (∀ i, 0 ≤ b.getD i 0) →
+      (∀ i, 0 ≤ (icLoop margOf lo hi tol k b it gs).bias.getD i 0) ∧
+      (∀ i, (icLoop margOf lo hi tol k b it gs).bias.getD i 0 = 0 ↔ b.getD i 0 = 0) := by
+  intro k
+  induction k with
+  | zero => intro b it gs hb; rw [icLoop]; exact ⟨hb, fun i => Iff.rfl⟩
+  | succ k ih =>
+    intro b it gs hb
+    rw [icLoop]
+    simp only
+    have hm : ∀ x ∈ slice (margOf b) lo hi, 0 ≤ x := fun x hx => hmarg b hb x (mem_slice _ _ _ _ hx)
+    split
+    · exact ⟨hb, fun i => Iff.rfl⟩
+    · rename_i hne
+      have hnz : (slice (margOf b) lo hi).filter (fun x => decide (x ≠ 0)) ≠ [] := by
+        intro h; apply hne; rw [h]; rfl
+      have hμ : 0 < IC.mean ((slice (margOf b) lo hi).filter (fun x => decide (x ≠ 0))) := by
+        apply mean_pos _ hnz
+        intro x hx
+        have h1 := List.mem_filter.mp hx
+        have h2 : x ≠ 0 := by simpa using h1.2
+        exact lt_of_le_of_ne (hm x h1.1) (Ne.symm h2)
+      have hb' := applyUpdate_nonneg b lo _ _ hm hμ hb
+      have hz' := applyUpdate_zero_iff b lo _ _ hm hμ
+      split
+      · exact ⟨hb', hz'⟩
+      · obtain ⟨h1, h2⟩ := ih (applyUpdate b lo (slice (margOf b) lo hi)
+            (IC.mean ((slice (margOf b) lo hi).filter (fun x => decide (x ≠ 0))))) (it + 1)
+            (relGap (IC.variance ((slice (margOf b) lo hi).filter (fun x => decide (x ≠ 0)))) tol :: gs) hb'
+        exact ⟨h1, fun i => (h2 i).trans (hz' i)⟩
+
+/-- `_marginalize` of non-negative data weighted by non-negative weights is non-negative -/
+theorem margVec_nonneg (n : Nat) (l : List (WPx Rat)) (hl : ∀ p ∈ l, 0 ≤ p.w) (w : List Rat)
+    (hw : ∀ i, 0 ≤ w.getD i 0) : ∀ x ∈ margVec n l w, 0 ≤ x := by
+  intro x hx
+  unfold margVec at hx
+  obtain ⟨k, _, rfl⟩ := List.mem_map.mp hx
+  have hb : ∀ sel : WPx Rat → Nat, 0 ≤ bincountAt sel (timesOuter (fun i => w.getD i 0) l) k := by
+    intro sel
+    unfold bincountAt
+    apply List.sum_nonneg
+    intro y hy
+    obtain ⟨p, hp, rfl⟩ := List.mem_map.mp hy
+    unfold timesOuter at hp
+    obtain ⟨q, hq, rfl⟩ := List.mem_map.mp hp
+    split
+    · exact mul_nonneg (mul_nonneg (hw _) (hw _)) (hl q hq)
+    · exact le_refl 0
+  unfold marginalizeAt
+  exact add_nonneg (hb _) (hb _)
+
+/-- **Every weight that is not NaN is positive** (exact arithmetic), on the domain `[lo, hi)` -/
+theorem others_positive (margOf : List Rat → List Rat) (lo hi : Nat) (tol : Rat)
+    (hmarg : ∀ b : List Rat, (∀ i, 0 ≤ b.getD i 0) → ∀ x ∈ margOf b, 0 ≤ x)
+    (k : Nat) (b0 : List Rat) (hb : ∀ i, 0 ≤ b0.getD i 0) (acc : List (Option Rat)) (i : Nat) (x : Rat)
+    (hin : lo ≤ i ∧ i < hi)
+    (hx : (markNaN lo hi (icLoop margOf lo hi tol k b0 0 []) acc)[i]? = some (some x)) : 0 < x := by
+  obtain ⟨h1, _⟩ := icLoop_invariant margOf lo hi tol hmarg k b0 0 [] hb
+  unfold markNaN at hx
+  rw [List.getElem?_mapIdx] at hx
+  cases hacc : acc[i]? with
+  | none => rw [hacc] at hx; simp at hx
+  | some old =>
+    rw [hacc] at hx
+    simp only [Option.map_some, hin, and_self, if_true, Option.some.injEq] at hx
+    split at hx
+    · exact absurd hx (by simp)
+    · split at hx
+      · exact absurd hx (by simp)
+      · rename_i hne
+        have : x = (icLoop margOf lo hi tol k b0 0 []).bias.getD i 0 := by
+          simpa using hx.symm
+        rw [this]
+        exact lt_of_le_of_ne (h1 i) (Ne.symm hne)
+
+/-- **A bin carries NaN iff it was masked before the sweeps or its domain was emptied** (on the
+domain `[lo, hi)`; `b0` is the weight vector after the bin-level filters, in which exactly the
+excluded bins are 0 — `maskedBias_zero_iff`). -/
+theorem mask_iff_partial (margOf : List Rat → List Rat) (lo hi : Nat) (tol : Rat)
+    (hmarg : ∀ b : List Rat, (∀ i, 0 ≤ b.getD i 0) → ∀ x ∈ margOf b, 0 ≤ x)
+    (k : Nat) (b0 : List Rat) (hb : ∀ i, 0 ≤ b0.getD i 0) (acc : List (Option Rat)) (i : Nat)
+    (hin : lo ≤ i ∧ i < hi) (hacc : i < acc.length) :
+    (markNaN lo hi (icLoop margOf lo hi tol k b0 0 []) acc)[i]? = some none ↔
+      ((icLoop margOf lo hi tol k b0 0 []).emptied = true ∨ b0.getD i 0 = 0) := by
+  obtain ⟨_, h2⟩ := icLoop_invariant margOf lo hi tol hmarg k b0 0 [] hb
+  unfold markNaN
+  rw [List.getElem?_mapIdx, List.getElem?_eq_getElem hacc]
+  simp only [Option.map_some, hin, and_self, if_true, Option.some.injEq]
+  by_cases he : (icLoop margOf lo hi tol k b0 0 []).emptied = true
+  · simp [he]
+  · simp only [he, Bool.false_eq_true, if_false, false_or]
+    rw [← h2 i]
+    simp
+
+/-- after the bin-level filters a weight is 0 exactly on the excluded bins (zero/NaN `x0` is one of
+the exclusion reasons) -/
+theorem maskedBias_zero_iff (n : Nat) (o : Opts) (offs : List Nat) (l : List (WPx Rat))
+    (mf : List (WPx Rat) → Nat → Rat) (i : Nat) (hi : i < n) :
+    (maskedBias n o (computeMasks mf n offs l o)).getD i 0 = 0 ↔
+      (computeMasks mf n offs l o).excluded i = true := by
+  have hlen : (initBias n o.x0).length = n := by
+    unfold initBias; split <;> simp
+  unfold maskedBias
+  rw [List.getD_eq_getElem?_getD, List.getElem?_mapIdx, List.getElem?_eq_getElem (by rw [hlen]; exact hi)]
+  simp only [Option.map_some, Option.getD_some]
+  by_cases he : (computeMasks mf n offs l o).excluded i = true
+  · simp [he]
+  · simp only [he, Bool.false_eq_true, if_false, iff_false]
+    intro hz
+    apply he
+    have hx0 : (computeMasks mf n offs l o).x0.getD i false = true := by
+      have : (computeMasks mf n offs l o).x0 = (initBias n o.x0).map fun x => decide (x = 0) := by
+        unfold computeMasks; rfl
+      rw [this, List.getD_eq_getElem?_getD, List.getElem?_map, List.getElem?_eq_getElem (by rw [hlen]; exact hi)]
+      simp [hz]
+    unfold Masks.excluded
+    rw [hx0]; simp
+
+/-! ## the "no remaining data" exit, and the full `mask_iff`
+
+For non-negative data the zero pattern of the marginal depends only on the zero pattern of the weights
+(`marg_zero_iff`), and the sweeps keep that pattern (`icLoop_invariant`); hence the domain can only be
+emptied at the first sweep (`icLoop_emptied_iff`).  This gives `mask_iff` for every domain and each of
+the three functionals (`margVec_pattern`: genome-wide/cis with `cw = none`, trans-only with
+`cw = some cweights`), and, unfolded through `balance`, `balance_genome_mask_iff` for the genome-wide
+model run.  For cis-only and trans-only the same unfolding through the `foldl` over chromosomes
+(resp. the `cweights`) is not carried out; the correspondence compares `expectations` (the static rule)
+with the model run and with the implementation there. -/
+
+theorem list_sum_eq_zero_iff (l : List Rat) (h : ∀ x ∈ l, 0 ≤ x) : l.sum = 0 ↔ ∀ x ∈ l, x = 0 := by
+  induction l with
+  | nil => simp
+  | cons a l ih =>
+    have ha : 0 ≤ a := h a List.mem_cons_self
+    have hl : ∀ x ∈ l, 0 ≤ x := fun x hx => h x (List.mem_cons_of_mem a hx)
+    rw [List.sum_cons, add_eq_zero_iff_of_nonneg ha (List.sum_nonneg hl), ih hl]
+    simp
+
+/-- for non-negative data and weights, whether a marginal vanishes depends only on which weights vanish -/
+theorem marg_zero_iff (l : List (WPx Rat)) (hl : ∀ p ∈ l, 0 ≤ p.w) (w : Nat → Rat) (hw : ∀ i, 0 ≤ w i) (k : Nat) :
+    marginalizeAt (timesOuter w l) k = 0 ↔
+      ∀ p ∈ l, (p.i = k ∨ p.j = k) → (w p.i = 0 ∨ w p.j = 0 ∨ p.w = 0) := by
+  have hb : ∀ sel : WPx Rat → Nat, (∀ q : WPx Rat, ∀ v : Rat, sel { q with w := v } = sel q) →
+      (bincountAt sel (timesOuter w l) k = 0 ↔ ∀ p ∈ l, sel p = k → (w p.i = 0 ∨ w p.j = 0 ∨ p.w = 0)) := by
+    intro sel hsel
+    unfold bincountAt
+    rw [list_sum_eq_zero_iff]
+    · unfold timesOuter
+      simp only [List.mem_map, forall_exists_index, and_imp, forall_apply_eq_imp_iff₂]
+      constructor
+      · intro h p hp hk
+        have := h p hp
+        rw [hsel, if_pos hk] at this
+        rcases mul_eq_zero.mp this with h1 | h1
+        · rcases mul_eq_zero.mp h1 with h2 | h2
+          · exact Or.inl h2
+          · exact Or.inr (Or.inl h2)
+        · exact Or.inr (Or.inr h1)
+      · intro h p hp
+        rw [hsel]
+        split
+        · rename_i hk
+          rcases h p hp hk with h1 | h1 | h1 <;> simp [h1]
+        · rfl
+    · intro y hy
+      obtain ⟨p, hp, rfl⟩ := List.mem_map.mp hy
+      unfold timesOuter at hp
+      obtain ⟨q, hq, rfl⟩ := List.mem_map.mp hp
+      split
+      · exact mul_nonneg (mul_nonneg (hw _) (hw _)) (hl q hq)
+      · exact le_refl 0
+  have hnn : ∀ sel : WPx Rat → Nat, 0 ≤ bincountAt sel (timesOuter w l) k := by
+    intro sel
+    unfold bincountAt
+    apply List.sum_nonneg
+    intro y hy
+    obtain ⟨p, hp, rfl⟩ := List.mem_map.mp hy
+    unfold timesOuter at hp
+    obtain ⟨q, hq, rfl⟩ := List.mem_map.mp hp
+    split
+    · exact mul_nonneg (mul_nonneg (hw _) (hw _)) (hl q hq)
+    · exact le_refl 0
+  unfold marginalizeAt
+  rw [add_eq_zero_iff_of_nonneg (hnn _) (hnn _), hb (·.i) (fun _ _ => rfl), hb (·.j) (fun _ _ => rfl)]
+  constructor
+  · rintro ⟨h1, h2⟩ p hp (hk | hk)
+    · exact h1 p hp hk
+    · exact h2 p hp hk
+  · intro h
+    exact ⟨fun p hp hk => h p hp (Or.inl hk), fun p hp hk => h p hp (Or.inr hk)⟩
+
+
+
+/-- the zero pattern of the functional on the domain depends only on the zero pattern of the weights -/
+def PatternDetermined (margOf : List Rat → List Rat) (lo hi : Nat) : Prop :=
+  ∀ b b' : List Rat, (∀ i, 0 ≤ b.getD i 0) → (∀ i, 0 ≤ b'.getD i 0) →
+    (∀ i, b'.getD i 0 = 0 ↔ b.getD i 0 = 0) →
+    ((∀ x ∈ slice (margOf b') lo hi, x = 0) ↔ (∀ x ∈ slice (margOf b) lo hi, x = 0))
+
+theorem nz_isEmpty_iff (m : List Rat) :
+    (m.filter (fun x => decide (x ≠ 0))).isEmpty = true ↔ ∀ x ∈ m, x = 0 := by
+  rw [List.isEmpty_iff, List.filter_eq_nil_iff]
+  simp
+
+/-- **The "no remaining data" exit can only be taken at the first sweep.** -/
+theorem icLoop_emptied_iff (margOf : List Rat → List Rat) (lo hi : Nat) (tol : Rat)
+    (hmarg : ∀ b : List Rat, (∀ i, 0 ≤ b.getD i 0) → ∀ x ∈ margOf b, 0 ≤ x)
+    (hpat : PatternDetermined margOf lo hi) :
+    ∀ (k : Nat) (b : List Rat) (it : Nat) (gs : List Rat), (∀ i, 0 ≤ b.getD i 0) →
+      ((icLoop margOf lo hi tol (k + 1) b it gs).emptied = true ↔ ∀ x ∈ slice (margOf b) lo hi, x = 0) := by
+  intro k
+  induction k with
+  | zero =>
+    intro b it gs _
+    rw [icLoop]
+    simp only
+    split
+    · rename_i he; simpa using (nz_isEmpty_iff _).mp he
+    · rename_i he
+      simp only [or_true, if_true]
+      constructor
+      · intro h; exact absurd h (by simp)
+      · intro h; exact absurd ((nz_isEmpty_iff _).mpr h) he
+  | succ k ih =>
+    intro b it gs hb
+    rw [icLoop]
+    simp only
+    have hm : ∀ x ∈ slice (margOf b) lo hi, 0 ≤ x := fun x hx => hmarg b hb x (mem_slice _ _ _ _ hx)
+    split
+    · rename_i he; simpa using (nz_isEmpty_iff _).mp he
+    · rename_i he
+      have hfalse : ¬ ∀ x ∈ slice (margOf b) lo hi, x = 0 := fun h => he ((nz_isEmpty_iff _).mpr h)
+      have hnz : (slice (margOf b) lo hi).filter (fun x => decide (x ≠ 0)) ≠ [] := by
+        intro h; apply he; rw [h]; rfl
+      have hμ : 0 < IC.mean ((slice (margOf b) lo hi).filter (fun x => decide (x ≠ 0))) := by
+        apply mean_pos _ hnz
+        intro x hx
+        have h1 := List.mem_filter.mp hx
+        have h2 : x ≠ 0 := by simpa using h1.2
+        exact lt_of_le_of_ne (hm x h1.1) (Ne.symm h2)
+      have hb' := applyUpdate_nonneg b lo _ _ hm hμ hb
+      have hz' := applyUpdate_zero_iff b lo _ _ hm hμ
+      split
+      · constructor
+        · intro h; exact absurd h (by simp)
+        · intro h; exact absurd h hfalse
+      · rw [ih _ _ _ hb', hpat b _ hb hb' hz']
+
+theorem getD_mulVec (b cw : List Rat) (i : Nat) : (mulVec b cw).getD i 0 = b.getD i 0 * cw.getD i 0 := by
+  unfold mulVec
+  rw [List.getD_eq_getElem?_getD, List.getD_eq_getElem?_getD, List.getD_eq_getElem?_getD, List.getElem?_zipWith]
+  cases b[i]? <;> cases cw[i]? <;> simp
+
+theorem slice_map {β γ : Type} (f : β → γ) (v : List β) (lo hi : Nat) :
+    slice (v.map f) lo hi = (slice v lo hi).map f := by
+  unfold slice
+  rw [List.map_take, List.map_drop]
+
+/-- the genome-wide / cis-only functional (`w = id`) and the trans-only functional (`w = · * cweights`)
+are pattern-determined on non-negative data -/
+theorem margVec_pattern (n : Nat) (l : List (WPx Rat)) (hl : ∀ p ∈ l, 0 ≤ p.w) (cw : Option (List Rat))
+    (hcw : ∀ c, cw = some c → ∀ i, 0 ≤ c.getD i 0) (lo hi : Nat) :
+    PatternDetermined (fun b => margVec n l (match cw with | none => b | some c => mulVec b c)) lo hi := by
+  intro b b' hb hb' hz
+  -- the effective weights
+  have key : ∀ (u u' : List Rat), (∀ i, 0 ≤ u.getD i 0) → (∀ i, 0 ≤ u'.getD i 0) →
+      (∀ i, u'.getD i 0 = 0 ↔ u.getD i 0 = 0) →
+      ((∀ x ∈ slice (margVec n l u') lo hi, x = 0) ↔ (∀ x ∈ slice (margVec n l u) lo hi, x = 0)) := by
+    intro u u' hu hu' hzz
+    unfold margVec
+    rw [slice_map, slice_map]
+    simp only [List.mem_map, forall_exists_index, and_imp, forall_apply_eq_imp_iff₂]
+    apply forall_congr'; intro k
+    apply imp_congr_right; intro _
+    rw [marg_zero_iff l hl _ hu' k, marg_zero_iff l hl _ hu k]
+    apply forall_congr'; intro p
+    apply imp_congr_right; intro _
+    apply imp_congr_right; intro _
+    rw [hzz p.i, hzz p.j]
+  cases cw with
+  | none => exact key b b' hb hb' hz
+  | some c =>
+    have hc := hcw c rfl
+    apply key
+    · intro i; rw [getD_mulVec]; exact mul_nonneg (hb i) (hc i)
+    · intro i; rw [getD_mulVec]; exact mul_nonneg (hb' i) (hc i)
+    · intro i; rw [getD_mulVec, getD_mulVec, mul_eq_zero, mul_eq_zero, hz i]
+
+
+
+/-- **`mask_iff`** (any domain, any pattern-determined functional, any number `≥ 1` of sweeps): after the
+NaN marking, bin `i` of the domain carries NaN iff its weight was 0 before the sweeps (it was excluded
+by a bin-level filter) or the domain has no non-zero marginal. -/
+theorem mask_iff (margOf : List Rat → List Rat) (lo hi : Nat) (tol : Rat)
+    (hmarg : ∀ b : List Rat, (∀ i, 0 ≤ b.getD i 0) → ∀ x ∈ margOf b, 0 ≤ x)
+    (hpat : PatternDetermined margOf lo hi)
+    (k : Nat) (b0 : List Rat) (hb : ∀ i, 0 ≤ b0.getD i 0) (acc : List (Option Rat)) (i : Nat)
+    (hin : lo ≤ i ∧ i < hi) (hacc : i < acc.length) :
+    (markNaN lo hi (icLoop margOf lo hi tol (k + 1) b0 0 []) acc)[i]? = some none ↔
+      (b0.getD i 0 = 0 ∨ ∀ x ∈ slice (margOf b0) lo hi, x = 0) := by
+  rw [mask_iff_partial margOf lo hi tol hmarg (k + 1) b0 hb acc i hin hacc,
+    icLoop_emptied_iff margOf lo hi tol hmarg hpat k b0 0 [] hb]
+  exact Or.comm
+
+theorem filters_nonneg (o : Opts) (offs : List Nat) (l : List (WPx Rat)) (hl : ∀ p ∈ l, 0 ≤ p.w) :
+    ∀ p ∈ sweepFilter o offs l, 0 ≤ p.w := by
+  have hz : ∀ (f : WPx Rat → Bool) (l : List (WPx Rat)), (∀ p ∈ l, 0 ≤ p.w) →
+      ∀ p ∈ l.map (fun p => if f p then { p with w := 0 } else p), 0 ≤ p.w := by
+    intro f l hl p hp
+    obtain ⟨q, hq, rfl⟩ := List.mem_map.mp hp
+    split
+    · exact le_refl 0
+    · exact hl q hq
+  have hd : ∀ d (l : List (WPx Rat)), (∀ p ∈ l, 0 ≤ p.w) → ∀ p ∈ zeroDiags d l, 0 ≤ p.w := by
+    intro d l hl
+    have := hz (fun p => decide (absDiff p.i p.j < d)) l hl
+    simpa [zeroDiags] using this
+  have ht : ∀ (l : List (WPx Rat)), (∀ p ∈ l, 0 ≤ p.w) → ∀ p ∈ zeroTrans offs l, 0 ≤ p.w := by
+    intro l hl
+    have := hz (fun p => decide (chromOf offs p.i ≠ chromOf offs p.j)) l hl
+    simpa [zeroTrans] using this
+  have hc : ∀ (l : List (WPx Rat)), (∀ p ∈ l, 0 ≤ p.w) → ∀ p ∈ zeroCis offs l, 0 ≤ p.w := by
+    intro l hl
+    have := hz (fun p => decide (chromOf offs p.i = chromOf offs p.j)) l hl
+    simpa [zeroCis] using this
+  have hbase : ∀ p ∈ baseFilter o offs l, 0 ≤ p.w := by
+    unfold baseFilter
+    simp only
+    split <;> split
+    · exact hd _ _ (ht _ hl)
+    · exact hd _ _ hl
+    · exact ht _ hl
+    · exact hl
+  unfold sweepFilter
+  split
+  · exact hc _ hbase
+  · exact hbase
+
+/-- **`mask_iff` for the genome-wide model run**: for non-negative counts and initial weights, bin `i`
+of the model's result carries NaN iff a documented bin-level filter excludes it (too few non-zeros,
+too low count, MAD-max, blacklist, zero/NaN `x0`) or no bin has a non-zero marginal. -/
+theorem balance_genome_mask_iff (n : Nat) (offs : List Nat) (ps : Pixels) (o : Opts) (r : Result)
+    (hmode : o.mode = .genome) (hps : ∀ p ∈ ps, 0 ≤ p.v) (hx0 : ∀ i, 0 ≤ (initBias n o.x0).getD i 0)
+    (h : balance n offs ps o = .ok r) (i : Nat) (hi : i < n) :
+    r.bias[i]? = some none ↔
+      ((computeMasks marginalizeAt n offs (pixelsOf ps) o).excluded i = true ∨
+        ∀ x ∈ margVec n (sweepFilter o offs (pixelsOf ps))
+          (maskedBias n o (computeMasks marginalizeAt n offs (pixelsOf ps) o)), x = 0) := by
+  unfold balance at h
+  split at h
+  · exact absurd h (by simp)
+  · rename_i hk
+    simp only [hmode] at h
+    obtain ⟨k, hk'⟩ : ∃ k, o.maxIters = k + 1 := ⟨o.maxIters - 1, by omega⟩
+    have hl : ∀ p ∈ pixelsOf ps, 0 ≤ p.w := by
+      intro p hp
+      unfold pixelsOf at hp
+      obtain ⟨q, hq, rfl⟩ := List.mem_map.mp hp
+      show (0 : Rat) ≤ ((q.v : Int) : Rat)
+      exact_mod_cast hps q hq
+    have hlf := filters_nonneg o offs (pixelsOf ps) hl
+    set masks := computeMasks marginalizeAt n offs (pixelsOf ps) o with hmasks
+    set b0 := maskedBias n o masks with hb0
+    have hlen0 : (initBias n o.x0).length = n := by unfold initBias; split <;> simp
+    have hb0len : b0.length = n := by rw [hb0]; unfold maskedBias; rw [List.length_mapIdx, hlen0]
+    have hb0nn : ∀ j, 0 ≤ b0.getD j 0 := by
+      intro j
+      rw [hb0]; unfold maskedBias
+      rw [List.getD_eq_getElem?_getD, List.getElem?_mapIdx]
+      have := hx0 j
+      rw [List.getD_eq_getElem?_getD] at this
+      cases hj : (initBias n o.x0)[j]? with
+      | none => simp
+      | some x =>
+        rw [hj] at this
+        simp only [Option.map_some, Option.getD_some]
+        split
+        · exact le_refl 0
+        · simpa using this
+    have hmarg : ∀ b : List Rat, (∀ i, 0 ≤ b.getD i 0) → ∀ x ∈ margVec n (sweepFilter o offs (pixelsOf ps)) b, 0 ≤ x :=
+      fun b hb => margVec_nonneg n _ hlf b hb
+    have hpat := margVec_pattern n (sweepFilter o offs (pixelsOf ps)) hlf none (fun c hc => by simp at hc) 0 n
+    simp only at hpat
+    injection h with h
+    rw [← h]
+    simp only
+    rw [hk']
+    have hmain := mask_iff (margVec n (sweepFilter o offs (pixelsOf ps))) 0 n o.tol hmarg hpat k b0 hb0nn
+      (b0.map some) i ⟨Nat.zero_le _, hi⟩ (by rw [List.length_map, hb0len]; exact hi)
+    rw [hmain, maskedBias_zero_iff n o offs (pixelsOf ps) marginalizeAt i hi]
+    apply or_congr Iff.rfl
+    have hlenm : (margVec n (sweepFilter o offs (pixelsOf ps)) b0).length = n := by
+      unfold margVec; simp
+    have : slice (margVec n (sweepFilter o offs (pixelsOf ps)) b0) 0 n
+        = margVec n (sweepFilter o offs (pixelsOf ps)) b0 := by
+      unfold slice
+      rw [List.drop_zero, Nat.sub_zero, List.take_of_length_le (by rw [hlenm])]
+    rw [this]
+
 end Cooler.C10
